@@ -26,6 +26,7 @@ type spvConf struct {
 	Recip string `json:"recip"`
 	Irt   string `json:"irt"`
 	Nooa  string `json:"nooa"`
+	M     string `json:"m"`
 }
 type spvAssn struct {
 	Signed bool      `json:"signed"`
@@ -215,10 +216,19 @@ func spvConcretise(v *spvVec, now time.Time, rng *rand.Rand) *spvCase {
 		var confs []ConfSpec
 		for _, cf := range a.Confs {
 			confs = append(confs, ConfSpec{Recipient: concStr(cf.Recip, spACS, rng), InResponseTo: irt(cf.Irt),
-				NotOnOrAfter: inst(cf.Nooa, time.Minute, -time.Hour)})
+				NotOnOrAfter: inst(cf.Nooa, time.Minute, -time.Hour),
+				Method:       map[string]string{"hok": "urn:oasis:names:tc:SAML:2.0:cm:holder-of-key", "sv": "urn:oasis:names:tc:SAML:2.0:cm:sender-vouches", "none": "-"}[cf.M]})
 		}
 		var auds []string
 		for _, ac := range a.Auds {
+			if ac == "alt" { // the SP's other identifier
+				if v.Cfg.EidSet {
+					auds = append(auds, spMetadata)
+				} else {
+					auds = append(auds, spEntityID)
+				}
+				continue
+			}
 			auds = append(auds, *concStr(ac, c.expAud, rng))
 		}
 		as := AssnSpec{ID: id, IssueInstant: inst(a.Time, 0, -time.Hour), Issuer: concStr(a.Iss, idpEntityID, rng),
